@@ -210,26 +210,6 @@ def alloc_out(shape, dtype, layout):
 exec(LAYOUT_SRC)
 
 
-def measure_variants():
-    """Which of the two recorded defects the current code exhibits (model variant switches)."""
-    from odl.discr.discr_utils import per_axis_interpolator, linear_interpolator
-    from odl.discr.grid import sparse_meshgrid
-    with warnings.catch_warnings():
-        warnings.simplefilter('ignore')
-        try:
-            per_axis_interpolator(np.array([1, 2]), [np.array([0.0, 1.0])], 'nearest')(np.array([0.25, 0.5]))
-            int_raises = False
-        except TypeError:
-            int_raises = True
-        try:
-            linear_interpolator(np.arange(4.0).reshape(2, 2), [np.array([0.0, 1.0])] * 2)(
-                sparse_meshgrid([0.5], [0.25, 0.5]))
-            mesh1_raises = False
-        except ValueError:
-            mesh1_raises = True
-    return int_raises, mesh1_raises
-
-
 def run_interp(kind, schemes, cvs, dtype, vals_re, vals_im, conv, pts, mesh, use_out, layout='C', out_layout='C'):
     """Run the implementation; returns the Coq term of type outc and a python summary."""
     from odl.discr.discr_utils import nearest_interpolator, linear_interpolator, per_axis_interpolator
@@ -301,19 +281,18 @@ def run_interp(kind, schemes, cvs, dtype, vals_re, vals_im, conv, pts, mesh, use
     return 'OVals %s []' % C.qs([float(v) for v in flat.tolist()]), flat.tolist()
 
 
-def case_term(kind, schemes, cvs, dtype, vre, vim, conv, pts, mesh, variants, out, outarg=None):
+def case_term(kind, schemes, cvs, dtype, vre, vim, conv, pts, mesh, out, outarg=None):
     kk = {'nearest': 'KNearest', 'linear': 'KLinear', 'per_axis': 'KPerAxis'}[kind]
     dt = {'float64': 'DFloat', 'float32': 'DFloat', 'complex128': 'DFloat', 'int64': 'DInt', 'str': 'DStr'}[dtype]
     inp = ('IMesh %s' % C.qss(mesh)) if conv == 'mesh' else ('IPoints %s' % C.qss(pts))
     return ('{| k_kind := %s; k_ss := %s; k_cvs := %s; k_dt := %s; k_cplx := %s; k_vre := %s; k_vim := %s; '
-            'k_inp := %s; k_outarg := %s; k_int_raises := %s; k_mesh1_raises := %s; k_out := %s |}'
+            'k_inp := %s; k_outarg := %s; k_out := %s |}'
             % (kk, C.lst([SCH[s] for s in schemes]), C.qss(cvs), dt, C.b(dtype == 'complex128'),
                C.qs(vre), C.qs(vim), inp,
-               'None' if outarg is None else '(Some (%s%%nat, %s))' % (C.nats(outarg[0]), C.b(outarg[1])),
-               C.b(variants[0]), C.b(variants[1]), out))
+               'None' if outarg is None else '(Some (%s%%nat, %s))' % (C.nats(outarg[0]), C.b(outarg[1])), out))
 
 
-def interp_cases(rng, tier, variants):
+def interp_cases(rng, tier):
     cs = C.CaseSet('interp', ['C15.Syntax', 'C15.Model', 'C15.Call', 'C15.Corr'], 'check', 'case')
     n_cases = 700 if tier == 'quick' else 6000
     for it in range(n_cases):
@@ -336,11 +315,11 @@ def interp_cases(rng, tier, variants):
         def coord(c):
             return gen_coord_near(rng, c, near[0]) if near else gen_coord(rng, c, dyadic)
         kind = rng.choice(['nearest', 'linear', 'per_axis', 'per_axis'])
-        if dtype in ('int64', 'str') and rng.random() < 0.7:
-            kind = 'nearest'      # the only factory defined for non-floating values
+        if dtype in ('int64', 'str') and rng.random() < 0.4:
+            kind = 'nearest'      # index-based evaluation (also per_axis with all-'nearest') is defined for these
         schemes = [rng.choice(['nearest', 'linear']) for _ in range(d)]
-        if kind == 'per_axis' and rng.random() < 0.15:
-            schemes = [schemes[0]] * d
+        if kind == 'per_axis' and (rng.random() < 0.15 or (dtype in ('int64', 'str') and rng.random() < 0.6)):
+            schemes = [schemes[0] if dtype not in ('int64', 'str') else 'nearest'] * d
         size = int(np.prod(shape))
         if dtype == 'str':
             vre = [float(rng.randint(0, 25)) for _ in range(size)]
@@ -355,11 +334,6 @@ def interp_cases(rng, tier, variants):
                 xs = [coord(c) for _ in range(npt)]
                 mesh.append([x for x, _ in xs])
                 branches.append([b for _, b in xs])
-            if d >= 2 and rng.random() < 0.85 and len(mesh[0]) == 1:
-                # most of the time avoid the recorded first-axis-singleton defect
-                x, b_ = coord(cvs[0])
-                mesh[0].append(x)
-                branches[0].append(b_)
         else:
             npt = 1 if conv == 'single' else rng.choice([1, 2, 3, 5])
             for _ in range(npt):
@@ -379,7 +353,7 @@ def interp_cases(rng, tier, variants):
             outarg = (osh, use_out != 'baddtype')
         out_layout = rng.choice(LAYOUTS) if use_out else 'C'
         out, summ = run_interp(kind, schemes, cvs, dtype, vre, vim, conv, pts, mesh, use_out, layout, out_layout)
-        term = case_term(kind, schemes, cvs, dtype, vre, vim, conv, pts, mesh, variants, out, outarg)
+        term = case_term(kind, schemes, cvs, dtype, vre, vim, conv, pts, mesh, out, outarg)
         desc = {'kind': kind, 'schemes': schemes, 'cvs': cvs, 'dtype': dtype, 'values': vre, 'imag': vim,
                 'layout': layout, 'out_layout': out_layout, 'near_uniform_eps_scale': near, 'conv': conv, 'points': pts, 'mesh': mesh, 'out_arg': use_out, 'branches': branches,
                 'impl': summ if isinstance(summ, str) else 'values'}
@@ -862,7 +836,7 @@ def _history_snippet(src, coq):
             'for u, v in zip(a, b)) for a, b in zip(observed, expected))\n')
 
 
-def resample_cases(rng, tier, variants):
+def resample_cases(rng, tier):
     """Resampling(domain, range, interp)(domain.element(callable)) and linear_deform."""
     import odl
     cs = C.CaseSet('resample', ['C15.Syntax', 'C15.Model', 'C15.Call', 'C15.Corr'], 'rcheck', 'rcase')
@@ -880,7 +854,7 @@ def resample_cases(rng, tier, variants):
                 m //= 2
             return m
         # range shapes whose nodes are dyadic (odd part of m divides n), so that every float operation is exact
-        shape2 = [rng.choice([m for m in range(2 if (k == 0 and variants[1] and d > 1) else 1, 2 * maxn + 3)
+        shape2 = [rng.choice([m for m in range(1, 2 * maxn + 3)
                               if shape[k] % oddpart(m) == 0]) for k in range(d)]
         lo = [rng.randint(-4, 4) * 0.5 for _ in range(d)]
         side = [rng.choice([0.5, 1.0, 2.0]) for _ in range(d)]
@@ -901,10 +875,8 @@ def resample_cases(rng, tier, variants):
             op = odl.Resampling(dom, ran, interp)
             if use_out:
                 y = ran.element(np.full(shape2, np.nan), order=rng.choice([None, 'C', 'F']) if d > 1 else None)
-                try:
-                    op(x, out=y)
-                except ValueError:
-                    pass    # recorded finding resampling-out-argument-valueerror (probed separately); y is compared
+                r_ = op(x, out=y)
+                assert r_ is y
             else:
                 y = op(x)
         except Exception:           # an exception is a failing case (empty output), not a harness crash
@@ -936,7 +908,7 @@ def resample_cases(rng, tier, variants):
             r = np.zeros(0)
         pts = (dom.points() + np.stack([dk.ravel() for dk in disp], axis=1)).tolist()
         out = 'OVals %s []' % C.qs(_finite_or_empty(np.asarray(r))[0].ravel().tolist())
-        term2 = case_term('per_axis', schemes, cvs, 'float64', vals, [], 'array', pts, [], variants, out)
+        term2 = case_term('per_axis', schemes, cvs, 'float64', vals, [], 'array', pts, [], out)
         cs2.add(term2, {'op': 'linear_deform', 'domain': [lo, hi, shape], 'interp': interp, 'values': vals,
                         'out_arg': use_out2, 'kind': 'per_axis', 'schemes': schemes, 'cvs': cvs, 'dtype': 'float64',
                         'imag': [], 'conv': 'array', 'points': pts, 'mesh': [], 'via_deform': True, 'order': order,
@@ -946,9 +918,8 @@ def resample_cases(rng, tier, variants):
 
 
 def correspondence(rng, tier):
-    variants = measure_variants()
-    return ([interp_cases(rng, tier, variants), sampling_cases(rng, tier), tensor_sampling_cases(rng, tier),
-             history_cases(rng, tier)] + resample_cases(rng, tier, variants))
+    return ([interp_cases(rng, tier), sampling_cases(rng, tier), tensor_sampling_cases(rng, tier),
+             history_cases(rng, tier)] + resample_cases(rng, tier))
 
 
 # ------------------------------------------------------------------- probes
